@@ -333,6 +333,6 @@ theorem pyDictSet_of_get (t : Table) (n : String) (l : List Ref) (h : pyDictGet 
     simp only [pyDictSet]
     split_ifs with hk
     · simp only [hk, if_true, Option.some.injEq] at h; rw [h]
-    · simp only [hk, if_false] at h; rw [ih h]
+    · simp only [hk] at h; rw [ih h]
 
 end MetadorModel.Bridge.PluginGroupFns
